@@ -76,7 +76,8 @@ class PadModel:
 
 
 def gen_padding(ch, size, term, fit=True):
-    kind = ch.weighted("padkind", [(2, "none"), (3, "exact"), (3, "abs"), (2, "rel")])
+    kind = ch.weighted("padkind", [(2, "none"), (3, "exact"), (3, "abs"), (2, "rel"),
+                                   (2, "mixed")])
     fill = ch.weighted("fill", [(5, " "), (2, "."), (2, "")])
     cols, rows = term
     if kind == "none":
@@ -96,6 +97,12 @@ def gen_padding(ch, size, term, fit=True):
         return PadModel("aligned", fill=fill, width=w, height=hh, h=h, v=v)
     w = -ch.int("prw", 0, max(0, cols - 1))
     hh = -ch.int("prh", 0, max(0, rows - 1))
+    if kind == "mixed":
+        # one dimension relative to the terminal, the other absolute
+        if ch.bool("abs_width", 0.5):
+            w = ch.int("pw", 1, max(1, cols if fit else cols + 3))
+        else:
+            hh = ch.int("ph", 1, max(1, rows if fit else rows + 3))
     return PadModel("aligned", fill=fill, width=w, height=hh, h=h, v=v)
 
 
